@@ -4,3 +4,4 @@ import AmVerif.Props.C03
 import AmVerif.Props.C02
 import AmVerif.Props.C01
 import AmVerif.Props.C16
+import AmVerif.Props.C12
